@@ -3,6 +3,7 @@ package main
 import (
 	"fmt"
 	"go/token"
+	"os"
 	"sort"
 	"strings"
 
@@ -70,8 +71,11 @@ func c03If(c *Ctx, pp, tag string) {
 	evals := evalFnsOf(t, pp)
 	var branchBody, elseBody *ssa.Call
 	allInstrs(f, func(in ssa.Instruction) {
-		if call, ok := in.(*ssa.Call); ok && call.Call.StaticCallee() == runStmts {
-			p := path(call.Call.Args[1])
+		if call, ok := in.(*ssa.Call); ok {
+			p, isExec := stmtsExecuted(call, runStmts)
+			if !isExec {
+				return
+			}
 			switch {
 			case strings.Contains(p, ".IfList[*].Block.Stmts"):
 				branchBody = call
@@ -87,7 +91,7 @@ func c03If(c *Ctx, pp, tag string) {
 	// entered only under condTrue(...) == true
 	g := false
 	for _, ec := range controlling(branchBody.Block()) {
-		if call, ok := ec.Cond.(*ssa.Call); ok && call.Call.StaticCallee() == condTrue && ec.Pol {
+		if isTruthTest(ec.Cond, condTrue) && ec.Pol {
 			// and the condition evaluated is this branch's
 			g = true
 		}
@@ -112,7 +116,7 @@ func c03If(c *Ctx, pp, tag string) {
 			if !ok {
 				return
 			}
-			if call, ok := iff.Cond.(*ssa.Call); ok && call.Call.StaticCallee() == condTrue {
+			if isTruthTest(iff.Cond, condTrue) {
 				truthy = append(truthy, iff.Block().Succs[0])
 			}
 		})
@@ -124,11 +128,16 @@ func c03If(c *Ctx, pp, tag string) {
 			first := tb.Instrs[0]
 			allInstrs(f, func(in ssa.Instruction) {
 				call, ok := in.(*ssa.Call)
-				if !ok || !(evals[call.Call.StaticCallee()] || call.Call.StaticCallee() == runStmts) || call == branchBody {
+				if !ok || call == branchBody {
+					return
+				}
+				_, isExec := stmtsExecuted(call, runStmts)
+				_, isEval := evaluatedChild(call, evalFnOf(evals))
+				if !(evals[call.Call.StaticCallee()] || isExec || isEval) {
 					return
 				}
 				if in == first || reachableFrom(first, call) {
-					reach = append(reach, fmt.Sprintf("%s(%s) at %s", call.Call.StaticCallee().Name(), path(call.Call.Args[1]), t.Pos(call.Pos())))
+					reach = append(reach, fmt.Sprintf("%s at %s", call.Call.StaticCallee().Name(), t.Pos(call.Pos())))
 				}
 			})
 		}
@@ -138,8 +147,12 @@ func c03If(c *Ctx, pp, tag string) {
 	// the condition evaluated belongs to the same list element as the body
 	okSame := false
 	allInstrs(f, func(in ssa.Instruction) {
-		if call, ok := in.(*ssa.Call); ok && evals[call.Call.StaticCallee()] && strings.Contains(path(call.Call.Args[1]), ".IfList[*].Condition") {
-			if precedes(call, branchBody) {
+		if call, ok := in.(*ssa.Call); ok {
+			p, isEval := evaluatedChild(call, evalFnOf(evals))
+			if evals[call.Call.StaticCallee()] && len(call.Call.Args) >= 2 {
+				p, isEval = path(call.Call.Args[1]), true
+			}
+			if isEval && strings.Contains(p, ".IfList[*].Condition") && precedes(call, branchBody) {
 				okSame = true
 			}
 		}
@@ -157,6 +170,89 @@ func c03If(c *Ctx, pp, tag string) {
 	} else {
 		r.Ob("IF-FIRST", tag+".RunIfElseStmt else body", t.Pos(f.Pos()), false, "execution of stmt.Else.Stmts not found")
 	}
+}
+
+// stmtsExecuted: the call runs a statement list — RunStmts(ctx, X.Stmts) itself, or a same-package helper that
+// receives a block X and hands X.Stmts to RunStmts; returns the access path of the list ("….Stmts").
+func stmtsExecuted(call *ssa.Call, runStmts *ssa.Function) (string, bool) {
+	cal := call.Call.StaticCallee()
+	if cal == nil {
+		return "", false
+	}
+	if cal == runStmts && len(call.Call.Args) >= 2 {
+		return path(call.Call.Args[1]), true
+	}
+	if cal.Pkg != runStmts.Pkg || len(cal.Blocks) == 0 {
+		return "", false
+	}
+	for k, prm := range cal.Params {
+		if k >= len(call.Call.Args) {
+			break
+		}
+		found := false
+		allInstrs(cal, func(in ssa.Instruction) {
+			if c2, ok := in.(*ssa.Call); ok && c2.Call.StaticCallee() == runStmts && len(c2.Call.Args) >= 2 && path(c2.Call.Args[1]) == prm.Name()+".Stmts" {
+				found = true
+			}
+		})
+		if found {
+			return path(call.Call.Args[k]) + ".Stmts", true
+		}
+	}
+	return "", false
+}
+
+// isTruthTest: v is the truthiness of a condition value: condTrue(…) itself, or result #0 of a same-package helper
+// whose every return yields condTrue(…) there (or the constant false next to an error).
+func isTruthTest(v ssa.Value, condTrue *ssa.Function) bool {
+	if call, ok := v.(*ssa.Call); ok {
+		return call.Call.StaticCallee() == condTrue
+	}
+	ex, ok := v.(*ssa.Extract)
+	if !ok || ex.Index != 0 {
+		return false
+	}
+	call, ok := ex.Tuple.(*ssa.Call)
+	if !ok {
+		return false
+	}
+	h := call.Call.StaticCallee()
+	if h == nil || h.Pkg != condTrue.Pkg || len(h.Blocks) == 0 {
+		return false
+	}
+	n, okAll := 0, true
+	allInstrs(h, func(in ssa.Instruction) {
+		ret, isR := in.(*ssa.Return)
+		if !isR || ret.Block() == h.Recover || len(ret.Results) == 0 {
+			return
+		}
+		switch x := ret.Results[0].(type) {
+		case *ssa.Call:
+			if x.Call.StaticCallee() == condTrue {
+				n++
+				return
+			}
+		case *ssa.Const:
+			if x.Value != nil && x.Value.ExactString() == "false" && retError(ret) == "nonnil" {
+				return
+			}
+		}
+		okAll = false
+	})
+	return okAll && n > 0
+}
+
+// evalFnOf: the single-node evaluator among the evaluation functions (RunStmt in v1, RunExpr in v2).
+func evalFnOf(evals map[*ssa.Function]bool) *ssa.Function {
+	var best *ssa.Function
+	for f := range evals {
+		if f.Name() == "RunStmt" || f.Name() == "RunExpr" {
+			if best == nil || f.Name() == "RunExpr" {
+				best = f
+			}
+		}
+	}
+	return best
 }
 
 // scopeDepth runs the Enter/Exit balance typestate; returns states before each instruction (delta encoded).
@@ -304,6 +400,85 @@ func c03Flags(c *Ctx, pp, tag string) {
 		fa, ok := u.X.(*ssa.FieldAddr)
 		return ok && fieldName(fa) == name && strings.HasSuffix(namedOf(fa.X.Type()), ".Task")
 	}
+	// summaries of boolean helpers that combine the flag primitives (e.g. `func loopDone(ctx) bool { if forbreak(ctx)
+	// { return true }; forcontinue(ctx); return ctx.StmtRetrun() }`): computed by the same dataflow on the helper's
+	// body, once per entry state; sm[state][answer] = state after (-1: that answer is impossible from that state)
+	type flagSummary [3][2]int
+	summaries := map[*ssa.Function]*flagSummary{}
+	var baseTrans func(in ssa.Instruction, st int) int
+	var baseEdge func(b *ssa.BasicBlock, si int, st int) int
+	var helperSummary func(h *ssa.Function) (*flagSummary, bool)
+	helperSummary = func(h *ssa.Function) (*flagSummary, bool) {
+		if h == nil || h.Pkg != pk || len(h.Blocks) == 0 || h == forbreak || h == forcontinue || h == stmtRet || h == runStmts {
+			return nil, false
+		}
+		if sm, ok := summaries[h]; ok {
+			return sm, sm != nil
+		}
+		summaries[h] = nil
+		res := h.Signature.Results()
+		if res.Len() != 1 || res.At(0).Type().String() != "bool" || baseTrans == nil {
+			return nil, false
+		}
+		sm := &flagSummary{}
+		valid := true
+		for s0 := 0; s0 < 3; s0++ {
+			outs := [2]map[int]bool{{}, {}}
+			hts := &typestate{fn: h, nstate: 3, init: s0, trans: baseTrans, edge: baseEdge}
+			before := hts.run()
+			allInstrs(h, func(in ssa.Instruction) {
+				ret, ok := in.(*ssa.Return)
+				if !ok || ret.Block() == h.Recover {
+					return
+				}
+				for st := 0; st < 3; st++ {
+					if before[in]&(1<<uint(st)) == 0 {
+						continue
+					}
+					switch v := ret.Results[0].(type) {
+					case *ssa.Const:
+						if v.Value != nil && v.Value.ExactString() == "true" {
+							outs[1][st] = true
+						} else {
+							outs[0][st] = true
+						}
+					case *ssa.Call:
+						if v.Call.StaticCallee() == stmtRet {
+							outs[1][st] = true
+							if st == 0 {
+								outs[0][0] = true
+							}
+							break
+						}
+						outs[0][st], outs[1][st] = true, true
+					default:
+						outs[0][st], outs[1][st] = true, true
+					}
+				}
+			})
+			for ans := 0; ans < 2; ans++ {
+				switch len(outs[ans]) {
+				case 0:
+					sm[s0][ans] = -1
+				case 1:
+					for k := range outs[ans] {
+						sm[s0][ans] = k
+					}
+				default:
+					valid = false
+				}
+			}
+		}
+		if os.Getenv("PLVERIF_DEBUG") != "" {
+			fmt.Fprintf(os.Stderr, "flag summary %s: %v valid=%v\n", h.Name(), *sm, valid)
+		}
+		if !valid {
+			return nil, false
+		}
+		summaries[h] = sm
+		r.Fn(relName(h))
+		return sm, true
+	}
 	for _, name := range []string{"RunForStmt", "RunForInStmt"} {
 		f := pk.Func(name)
 		if f == nil {
@@ -353,6 +528,14 @@ func c03Flags(c *Ctx, pp, tag string) {
 				}
 			default:
 				if call, ok := iff.Cond.(*ssa.Call); ok {
+					if sm, has := helperSummary(call.Call.StaticCallee()); has {
+						// a helper that combines the primitives: (state before, answer) -> state after
+						out := sm[st][1]
+						if si == 1 {
+							out = sm[st][0]
+						}
+						return out
+					}
 					switch call.Call.StaticCallee() {
 					case forbreak:
 						if forbreak == nil {
@@ -378,6 +561,7 @@ func c03Flags(c *Ctx, pp, tag string) {
 			}
 			return st
 		}
+		baseTrans, baseEdge = ts.trans, ts.edge
 		// run with body calls as generators: emulate by running three times with forced post-body state and merging
 		merged := map[ssa.Instruction]uint16{}
 		for forced := 0; forced < 3; forced++ {
@@ -409,8 +593,21 @@ func c03Flags(c *Ctx, pp, tag string) {
 		for li, l := range naturalLoops(f) {
 			for _, la := range l.Latch {
 				last := la.Instrs[len(la.Instrs)-1]
-				m := merged[last]
-				// state after the latch block = before its terminator (no flag effect in terminators)
+				mb := merged[last]
+				// state on the back edge itself: the latch's terminator may be the very test that clears the flags
+				var m uint16
+				for si, sc := range la.Succs {
+					if sc != l.Header {
+						continue
+					}
+					for st := 0; st < 3; st++ {
+						if mb&(1<<uint(st)) != 0 {
+							if n := ts.edge(la, si, st); n >= 0 {
+								m |= 1 << uint(n)
+							}
+						}
+					}
+				}
 				r.Ob("LOOP-FLAGS", fmt.Sprintf("%s.%s loop #%d back edge from block %d", tag, name, li+1, ordinalBlock(f, la)), t.Pos(firstPos(la)), m&^1 == 0,
 					"flags possible when the next iteration starts: "+render(m)+" — a flag that survives the iteration it was raised in skips the following iteration's statements")
 			}
@@ -656,13 +853,51 @@ func c03Vars(c *Ctx) {
 		}
 		tag := t.SSA[pp].Pkg.Name()
 		_, s2k := kindTable(t)
-		isStore := func(in ssa.Instruction) bool {
+		directStore := func(in ssa.Instruction) bool {
 			call, ok := in.(*ssa.Call)
 			if !ok || call.Call.StaticCallee() == nil {
 				return false
 			}
 			n := call.Call.StaticCallee().Name()
 			return n == "SetVarb" || n == "changeListOrMapValue"
+		}
+		// a helper is as good as a store when none of its success returns can be reached without one
+		wrapper := map[*ssa.Function]bool{}
+		for _, h := range t.PkgFuncs(pp) {
+			if h == as || len(h.Blocks) == 0 {
+				continue
+			}
+			has, all := false, true
+			allInstrs(h, func(in ssa.Instruction) {
+				if directStore(in) {
+					has = true
+				}
+			})
+			if !has {
+				continue
+			}
+			allInstrs(h, func(in ssa.Instruction) {
+				ret, ok := in.(*ssa.Return)
+				if !ok || ret.Block() == h.Recover || len(ret.Results) == 0 || retError(ret) == "nonnil" {
+					return
+				}
+				if len(ret.Results) > 1 && isNilConst(ret.Results[0]) {
+					return // nothing to assign to
+				}
+				if reachAvoid(h.Blocks[0].Instrs[0], ret, directStore) && !directStore(h.Blocks[0].Instrs[0]) {
+					all = false
+				}
+			})
+			if all {
+				wrapper[h] = true
+			}
+		}
+		isStore := func(in ssa.Instruction) bool {
+			if directStore(in) {
+				return true
+			}
+			call, ok := in.(*ssa.Call)
+			return ok && call.Call.StaticCallee() != nil && wrapper[call.Call.StaticCallee()]
 		}
 		nRet, bad := 0, 0
 		allInstrs(as, func(in ssa.Instruction) {
@@ -694,10 +929,55 @@ func c03Vars(c *Ctx) {
 			}
 		})
 		if pp == pRT {
-			r.Ob("VARS", tag+".RunAssignmentExpr stores on every successful target arm", t.Pos(as.Pos()), bad == 0 && nRet >= 4, fmt.Sprintf("%d success returns under an Identifier/IndexExpr target test, %d reachable without a store", nRet, bad))
+			r.Ob("VARS", tag+".RunAssignmentExpr stores on every successful target arm", t.Pos(as.Pos()), bad == 0 && nRet >= 2, fmt.Sprintf("%d success returns under an Identifier/IndexExpr target test, %d reachable without a store", nRet, bad))
 		} else {
 			// v2: each arm of the per-target switch inside the loop must pass a store before the loop latch
 			okArms, nArms := true, 0
+			// the per-target switch may live in a helper called from the loop: then its arms are judged there, against
+			// the helper's success returns, and the helper call must sit in the loop
+			for _, l := range naturalLoops(as) {
+				for b := range l.Blocks {
+					for _, in := range b.Instrs {
+						call, ok := in.(*ssa.Call)
+						if !ok || call.Call.StaticCallee() == nil || call.Call.StaticCallee().Pkg != as.Pkg || len(call.Call.StaticCallee().Blocks) == 0 {
+							continue
+						}
+						h := call.Call.StaticCallee()
+						// only a target dispatcher: it stores both to variables and to list/map elements
+						names := map[string]bool{}
+						allInstrs(h, func(i2 ssa.Instruction) {
+							if c2, ok := i2.(*ssa.Call); ok && c2.Call.StaticCallee() != nil && directStore(i2) {
+								names[c2.Call.StaticCallee().Name()] = true
+							}
+						})
+						if len(names) < 2 || h.Name() == "changeListOrMapValue" {
+							continue
+						}
+						for _, hb := range h.Blocks {
+							for _, ec := range controlling(hb) {
+								bo, ok := ec.Cond.(*ssa.BinOp)
+								if !ok || bo.Op != token.EQL || !ec.Pol || !strings.HasSuffix(path(bo.X), ".NodeType") || ec.If.Succs[0] != hb {
+									continue
+								}
+								k, isC := constInt(bo.Y)
+								if !isC || (k != s2k["Identifier"] && k != s2k["IndexExpr"]) {
+									continue
+								}
+								nArms += 2 // stands for the plain and the compound use of the shared arm
+								allInstrs(h, func(i2 ssa.Instruction) {
+									ret, isR := i2.(*ssa.Return)
+									if !isR || retError(ret) == "nonnil" || !reachableFrom(hb.Instrs[0], ret) && ret.Block() != hb {
+										return
+									}
+									if reachAvoid(hb.Instrs[0], ret, directStore) && !directStore(hb.Instrs[0]) {
+										okArms = false
+									}
+								})
+							}
+						}
+					}
+				}
+			}
 			for _, l := range naturalLoops(as) {
 				for b := range l.Blocks {
 					for _, ec := range controlling(b) {
@@ -752,11 +1032,21 @@ func c03Vars(c *Ctx) {
 	// both walk the Before chain
 	for _, f := range []*ssa.Function{set, get} {
 		walks := false
-		for _, l := range naturalLoops(f) {
-			for b := range l.Blocks {
-				for _, in := range b.Instrs {
-					if u, ok := in.(*ssa.UnOp); ok && strings.HasSuffix(path(u), ".Before") {
-						walks = true
+		cands := []*ssa.Function{f}
+		allInstrs(f, func(in ssa.Instruction) {
+			if call, ok := in.(*ssa.Call); ok {
+				if g := call.Call.StaticCallee(); g != nil && g.Pkg == f.Pkg && g != f && len(g.Blocks) > 0 && g.Signature.Recv() != nil && len(call.Call.Args) > 0 && call.Call.Args[0] == ssa.Value(f.Params[0]) {
+					cands = append(cands, g) // a search helper on the same receiver
+				}
+			}
+		})
+		for _, g := range cands {
+			for _, l := range naturalLoops(g) {
+				for b := range l.Blocks {
+					for _, in := range b.Instrs {
+						if u, ok := in.(*ssa.UnOp); ok && strings.HasSuffix(path(u), ".Before") {
+							walks = true
+						}
 					}
 				}
 			}
@@ -819,13 +1109,60 @@ func c03Vars(c *Ctx) {
 
 // aliasBeforeUse: the function compares a string parameter with "_" and replaces it by the message key, and no
 // call receives the raw parameter (a lookup made with the un-aliased key misses the variable / field `message`).
+// isAliasFn: h(name string) string returns the message key when name == "_" and name itself otherwise.
+func isAliasFn(h *ssa.Function) bool {
+	if h == nil || len(h.Blocks) == 0 || len(h.Params) != 1 || h.Signature.Results().Len() != 1 {
+		return false
+	}
+	prm := h.Params[0]
+	cmp := false
+	for _, ref := range *prm.Referrers() {
+		if bo, ok := ref.(*ssa.BinOp); ok && (bo.Op == token.EQL || bo.Op == token.NEQ) {
+			if cv, isC := bo.Y.(*ssa.Const); isC && cv.Value != nil && cv.Value.ExactString() == `"_"` {
+				cmp = true
+			}
+		}
+	}
+	if !cmp {
+		return false
+	}
+	msg, self, other := false, false, false
+	var visit func(v ssa.Value, depth int)
+	visit = func(v ssa.Value, depth int) {
+		switch x := v.(type) {
+		case *ssa.Const:
+			if x.Value != nil && x.Value.ExactString() == `"message"` {
+				msg = true
+			} else {
+				other = true
+			}
+		case *ssa.Parameter:
+			self = x == prm
+		case *ssa.Phi:
+			if depth < 3 {
+				for _, e := range x.Edges {
+					visit(e, depth+1)
+				}
+			}
+		default:
+			other = true
+		}
+	}
+	allInstrs(h, func(in ssa.Instruction) {
+		if ret, ok := in.(*ssa.Return); ok && len(ret.Results) == 1 {
+			visit(ret.Results[0], 0)
+		}
+	})
+	return msg && self && !other
+}
+
 func aliasBeforeUse(f *ssa.Function) (bool, string) {
 	if f == nil {
 		return false, "function not found"
 	}
 	n := 0
 	for _, p := range f.Params {
-		aliased := false
+		aliased, viaFn := false, false
 		var raw []string
 		for _, ref := range *p.Referrers() {
 			switch x := ref.(type) {
@@ -837,6 +1174,10 @@ func aliasBeforeUse(f *ssa.Function) (bool, string) {
 			case ssa.CallInstruction:
 				cal := x.Common().StaticCallee()
 				if cal != nil && cal.Pkg != nil && (cal.Pkg.Pkg.Path() == "fmt" || cal.Pkg.Pkg.Path() == "errors") {
+					continue
+				}
+				if isAliasFn(cal) {
+					aliased, viaFn = true, true
 					continue
 				}
 				nm := "dynamic call"
@@ -866,7 +1207,7 @@ func aliasBeforeUse(f *ssa.Function) (bool, string) {
 				}
 			}
 		}
-		if !okConst {
+		if !okConst && !viaFn {
 			return false, "parameter " + p.Name() + " is compared with `_` but not replaced by the message key"
 		}
 	}
